@@ -246,9 +246,19 @@ fn gen_history(rng: &mut Rng, p: &Params, case: u64) -> Vec<Evt> {
             while kinds.len() < len { kinds.push(match rng.below(10) { 0..=6 => 0, 7 => 1, 8 => 2, _ => 3 }); }
         }
     }
+    // long silence: a few present samples, then 32..44 absent events in a row (no error), then present samples again, all
+    // well inside the moving-average window: housekeeping keyed on "nothing arrived for N updates" only shows here
+    let long_silence = case % 16 == 5;
+    if long_silence {
+        kinds.clear();
+        for _ in 0..1 + rng.usize(3) { kinds.push(0); }
+        for _ in 0..32 + rng.usize(13) { kinds.push(1); }
+        while kinds.len() < 48 { kinds.push(if rng.chance(0.85) { 0 } else { 1 }); }
+    }
     let nondecreasing_ok = matches!(p.kind, 2 | 3 | 4 | 5 | 11 | 12 | 13);
     let mut t = rng.range_i64(-1_000_000_000_000_000, 1_000_000_000_000_000);
-    let const_dt = if rng.chance(0.3) { Some(rng.step_ns(1_000, 3_600_000_000_000)) } else { None };
+    let mut const_dt = if rng.chance(0.3) { Some(rng.step_ns(1_000, 3_600_000_000_000)) } else { None };
+    if long_silence { const_dt = Some((p.window / 100).max(1_000)); }
     let mut out = Vec::with_capacity(kinds.len());
     let mut cur_cmd = p.cmd;
     // unit of the Quantity payload: may change only when the previous event erased the stream's history (then a
@@ -341,6 +351,7 @@ fn main() {
                 cmd: gen_cmd(&mut rng),
             };
             let h = gen_history(&mut rng, &p, case);
+            if case % 16 == 5 { rep.tally(&format!("long_silence_histories/{}", name)); }
             if h.windows(2).any(|w| w[0].unit != w[1].unit && matches!(w[1].input, Ev::Some(..))) { rep.tally(&format!("unit_changes_after_reset/{}", name)); }
             let (a, upd, pure) = run_all(&p, p.cmd, &h, None);
             rep.eval();
